@@ -34,13 +34,14 @@ def bptcOp (op : String) (args : List String) : Option String :=
 
 /-! ### histories (`bh.*`) -/
 
-/-- `B:0101…` / `L:0101…` (a new bitarray in a big / little-endian container: the entry points index
-the bits, the container's bit order is not observable) or `@k` (the kept object itself) -/
+/-- `B:0101…` / `L:0101…` / `F:0101…` / `R:0101…` (a new bitarray in a big / little-endian container, a
+frozenbitarray, a read-only bitarray over an imported buffer: the entry points index the bits and only read
+them, container and provenance are not observable) or `@k` (the kept object itself) -/
 def bhArg (s : String) : Option Bptc.Arg :=
   match s.toList with
   | '@' :: ds => (String.ofList ds).toNat?.map Bptc.Arg.ref
   | e :: ':' :: bs =>
-    if e == 'B' || e == 'L' then (bptcBits (String.ofList bs)).map Bptc.Arg.lit else none
+    if e == 'B' || e == 'L' || e == 'F' || e == 'R' then (bptcBits (String.ofList bs)).map Bptc.Arg.lit else none
   | _ => none
 
 def bhRef (s : String) : Option Nat :=
@@ -68,6 +69,13 @@ def bhStepOf (op : String) (args : List String) : Option Bptc.Step :=
     let k ← bhRef k
     if v == "1" then some (.setAll k true) else if v == "0" then some (.setAll k false) else none
   | "bh.read", [k] => (bhRef k).map .read
+  | "bh.put", [k, a] => do
+    let k ← bhRef k
+    let a ← bhArg a
+    some (.put k a)
+  | "bh.new", [a] => match bhArg a with
+    | some (.lit b) => some (.new b)
+    | _ => none
   | "bh.nop", [] => some (.nop false)
   | "bh.nop+", [] => some (.nop true)
   | _, _ => none
